@@ -7,6 +7,8 @@ import (
 	"go/parser"
 	"go/token"
 	"go/types"
+	"golang.org/x/tools/go/packages"
+	"sort"
 	"strings"
 
 	"verif/checker/internal/dtab"
@@ -142,6 +144,7 @@ func CheckC19(c *Ctx) {
 		run.Count("record_index_sites", n)
 		run.Floor("record_index_sites", 1)
 	}
+	c.constructorDiscipline("reader/construction", "asset", "helper", "backtest")
 	if ok := panicSourcesSelfTest(); !ok {
 		run.Break("the panic-source detector no longer finds its built-in example")
 	} else {
@@ -246,13 +249,17 @@ func CheckC19(c *Ctx) {
 		}
 	}
 	// (e) Tiingo
+	acquirers := c.responseAcquirers(ap)
+	for fn, fd := range acquirers {
+		c.httpDisciplineIn(ainfo, fd, load.FuncName(fn), acquirers, true)
+	}
 	for _, m := range []string{"GetSince", "LastDate"} {
 		fi := c.fn("asset", "TiingoRepository", m)
 		if fi == nil {
 			continue
 		}
 		site := load.FuncName(fi.Fn)
-		c.httpDiscipline(ainfo, fi.Decl, site)
+		c.httpDisciplineIn(ainfo, fi.Decl, site, acquirers, false)
 	}
 	// (f) JSON opening delimiter
 	if dec := c.fn("helper", "", "JSONToChanWithLogger"); dec != nil {
@@ -300,11 +307,59 @@ func (c *Ctx) errBranchesExit(info *types.Info, s ast.Stmt, site string) {
 }
 
 // httpDiscipline: status check before decoding; body closed on every path after a successful Do.
-func (c *Ctx) httpDiscipline(info *types.Info, fd *ast.FuncDecl, site string) {
+// responseAcquirers: unexported functions of the package that issue the request themselves and
+// hand the response to their caller (func … (*http.Response, error) containing client.Do).
+func (c *Ctx) responseAcquirers(pk *packages.Package) map[*types.Func]*ast.FuncDecl {
+	out := map[*types.Func]*ast.FuncDecl{}
+	info := pk.TypesInfo
+	for _, f := range pk.Syntax {
+		if strings.HasSuffix(c.P.Fset.Position(f.Pos()).Filename, "_test.go") {
+			continue
+		}
+		for _, d := range f.Decls {
+			fd, ok := d.(*ast.FuncDecl)
+			if !ok || fd.Body == nil || fd.Name.IsExported() {
+				continue
+			}
+			fn, _ := info.ObjectOf(fd.Name).(*types.Func)
+			if fn == nil {
+				continue
+			}
+			sig := fn.Type().(*types.Signature)
+			if sig.Results().Len() != 2 || sig.Results().At(0).Type().String() != "*net/http.Response" {
+				continue
+			}
+			has := false
+			ast.Inspect(fd.Body, func(n ast.Node) bool {
+				if call, ok := n.(*ast.CallExpr); ok && calleeName(info, call) == "net/http.(Client).Do" {
+					has = true
+				}
+				return true
+			})
+			if has {
+				out[fn] = fd
+			}
+		}
+	}
+	return out
+}
+
+func (c *Ctx) httpDisciplineIn(info *types.Info, fd *ast.FuncDecl, site string, acquirers map[*types.Func]*ast.FuncDecl, isAcquirer bool) {
 	run := c.Run
+	viaAcquirer := false
 	isDo := func(n ast.Node) bool {
 		call, ok := n.(*ast.CallExpr)
-		return ok && calleeName(info, call) == "net/http.(Client).Do"
+		if !ok {
+			return false
+		}
+		if calleeName(info, call) == "net/http.(Client).Do" {
+			return true
+		}
+		if fn := callee(info, call); fn != nil && acquirers[fn.Origin()] != nil && acquirers[fn.Origin()] != fd {
+			viaAcquirer = true
+			return true
+		}
+		return false
 	}
 	hasDo := false
 	ast.Inspect(fd.Body, func(n ast.Node) bool {
@@ -335,6 +390,9 @@ func (c *Ctx) httpDiscipline(info *types.Info, fd *ast.FuncDecl, site string) {
 		}
 		return true
 	})
+	if viaAcquirer {
+		status = true // checked in the function that issues the request, which is held to this discipline itself
+	}
 	run.Oblige(status)
 	if !status {
 		c.violate("http/status", site, "no status check", fd.Pos(), "a non-success HTTP status no longer surfaces as an error before the body is decoded")
@@ -356,7 +414,14 @@ func (c *Ctx) httpDiscipline(info *types.Info, fd *ast.FuncDecl, site string) {
 		}
 	}
 	exempt := func(r *ast.ReturnStmt) bool {
-		return doErrIf != nil && r.Pos() >= doErrIf.Pos() && r.End() <= doErrIf.End()
+		if doErrIf != nil && r.Pos() >= doErrIf.Pos() && r.End() <= doErrIf.End() {
+			return true
+		}
+		// a function that hands the response on: the caller owns the body from here
+		if isAcquirer && len(r.Results) == 2 && !isNilIdent(ast.Unparen(r.Results[0])) {
+			return true
+		}
+		return false
 	}
 	lits := goLitsOf(fd)
 	// a goroutine that closes the body on all its paths discharges the obligation for the path that starts it
@@ -420,6 +485,10 @@ func CheckC10(c *Ctx) {
 	}
 	c.freshElements("asset")
 	c.assetNameCodec()
+	c.factoryPurity("asset", "NewRepository", "repository/factory")
+	// an Append that has returned stays visible: the in-memory repository updates its map under the
+	// mutex, each read-modify-write within one critical section
+	c.lockConsistency("asset", "InMemoryRepository", []string{"storage"}, "repository")
 	if get := c.fn("asset", "InMemoryRepository", "Get"); get != nil {
 		// map lookup failure returns a non-nil error
 		good := false
@@ -1351,4 +1420,234 @@ func f(t interface{}) {
 	}
 	ps := panicSources(f)
 	return len(ps) == 2 && strings.HasPrefix(ps[0].what, "assertion") && ps[1].what == "panic call"
+}
+
+// factoryPurity: asset.NewRepository and backtest.NewReport build a new object from the
+// configuration they are given on every call: each return of a non-nil object is the result of
+// calling the builder looked up for the name with the config parameter (through locals). A value
+// taken from anywhere else (a package-level cache keyed by less than name and config) hands two
+// differently configured callers the same object.
+func (c *Ctx) factoryPurity(rel, fn, rule string) {
+	run := c.Run
+	fi := c.fn(rel, "", fn)
+	if fi == nil {
+		run.Break("anchor missing: " + rel + "." + fn)
+		return
+	}
+	info := fi.Pkg.TypesInfo
+	sig := fi.Fn.Type().(*types.Signature)
+	if sig.Params().Len() < 2 {
+		c.violate(rule, rel+"."+fn, "signature", fi.Decl.Pos(), "the factory no longer takes a name and a configuration (undecided, fails closed)")
+		return
+	}
+	cfg := sig.Params().At(sig.Params().Len() - 1)
+	defs := singleDefs(info, fi.Decl.Body)
+	n := 0
+	ast.Inspect(fi.Decl.Body, func(nd ast.Node) bool {
+		if _, isLit := nd.(*ast.FuncLit); isLit {
+			return false
+		}
+		r, ok := nd.(*ast.ReturnStmt)
+		if !ok || len(r.Results) == 0 {
+			return true
+		}
+		first := ast.Unparen(r.Results[0])
+		if isNilIdent(first) {
+			return true
+		}
+		n++
+		e := first
+		for i := 0; i < 6; i++ {
+			id, isID := e.(*ast.Ident)
+			if !isID {
+				break
+			}
+			d, has := defs[info.ObjectOf(id)]
+			if !has {
+				break
+			}
+			e = ast.Unparen(d)
+		}
+		good := false
+		if call, ok := e.(*ast.CallExpr); ok {
+			// builder(config): the callee is a local function value, an argument is the config parameter
+			if _, isLocalFn := ast.Unparen(call.Fun).(*ast.Ident); isLocalFn && callee(info, call) == nil {
+				for _, a := range call.Args {
+					if id, ok := ast.Unparen(a).(*ast.Ident); ok && info.ObjectOf(id) == types.Object(cfg) {
+						good = true
+					}
+				}
+			}
+		}
+		run.Oblige(good)
+		if !good {
+			c.violate(rule, rel+"."+fn, "return "+short(exprString(first), 50), r.Pos(), "this path returns "+short(exprString(e), 80)+", not what the builder registered for the name makes of the configuration given: two callers with different configurations can get the same object")
+		}
+		return true
+	})
+	run.Count("factory_returns_"+fn, n)
+	if n == 0 {
+		c.violate(rule, rel+"."+fn, "no return", fi.Decl.Pos(), "the factory returns no object (undecided, fails closed)")
+	}
+}
+
+// constructorDiscipline: a struct type that has a constructor which gives some of its pointer,
+// interface, function, map or channel fields a non-nil value is only built through it, or by a
+// literal that sets those fields too. A literal elsewhere that leaves one of them out yields an
+// object whose methods dereference nil on the first path that uses the field (the Tiingo reader
+// logs decoding errors through its Logger: a nil Logger turns a malformed body into a panic).
+func (c *Ctx) constructorDiscipline(rule string, rels ...string) {
+	run := c.Run
+	nilable := func(t types.Type) bool {
+		switch t.Underlying().(type) {
+		case *types.Pointer, *types.Interface, *types.Signature, *types.Map, *types.Chan:
+			return true
+		}
+		return false
+	}
+	type litSite struct {
+		lit  *ast.CompositeLit
+		fn   *ast.FuncDecl
+		pk   *packages.Package
+		sets map[string]bool
+	}
+	byType := map[*types.TypeName][]litSite{}
+	assigned := map[*ast.FuncDecl]map[*types.TypeName]map[string]bool{} // x.F = … in the same function
+	for _, rel := range rels {
+		pk := c.P.Pkg(rel)
+		if pk == nil {
+			continue
+		}
+		info := pk.TypesInfo
+		for _, f := range pk.Syntax {
+			if strings.HasSuffix(c.P.Fset.Position(f.Pos()).Filename, "_test.go") {
+				continue
+			}
+			for _, d := range f.Decls {
+				fd, ok := d.(*ast.FuncDecl)
+				if !ok || fd.Body == nil {
+					continue
+				}
+				ast.Inspect(fd.Body, func(n ast.Node) bool {
+					switch x := n.(type) {
+					case *ast.CompositeLit:
+						t := info.TypeOf(x)
+						if t == nil {
+							return true
+						}
+						nt, ok := t.(*types.Named)
+						if !ok {
+							return true
+						}
+						if _, isStruct := nt.Underlying().(*types.Struct); !isStruct || nt.Obj().Pkg() == nil || !strings.HasPrefix(nt.Obj().Pkg().Path(), load.ModulePath) {
+							return true
+						}
+						sets := map[string]bool{}
+						positional := false
+						for _, el := range x.Elts {
+							if kv, ok := el.(*ast.KeyValueExpr); ok {
+								if k, ok := kv.Key.(*ast.Ident); ok && !isNilIdent(kv.Value) {
+									sets[k.Name] = true
+								}
+							} else {
+								positional = true
+							}
+						}
+						if positional {
+							st := nt.Underlying().(*types.Struct)
+							for i := 0; i < st.NumFields() && i < len(x.Elts); i++ {
+								if !isNilIdent(x.Elts[i]) {
+									sets[st.Field(i).Name()] = true
+								}
+							}
+						}
+						byType[nt.Origin().Obj()] = append(byType[nt.Origin().Obj()], litSite{x, fd, pk, sets})
+					case *ast.AssignStmt:
+						for i, l := range x.Lhs {
+							sel, ok := l.(*ast.SelectorExpr)
+							if !ok || i >= len(x.Rhs) || isNilIdent(x.Rhs[i]) {
+								continue
+							}
+							tx := info.TypeOf(sel.X)
+							if tx == nil {
+								continue
+							}
+							if p, ok := tx.(*types.Pointer); ok {
+								tx = p.Elem()
+							}
+							if nt, ok := tx.(*types.Named); ok {
+								if assigned[fd] == nil {
+									assigned[fd] = map[*types.TypeName]map[string]bool{}
+								}
+								if assigned[fd][nt.Origin().Obj()] == nil {
+									assigned[fd][nt.Origin().Obj()] = map[string]bool{}
+								}
+								assigned[fd][nt.Origin().Obj()][sel.Sel.Name] = true
+							}
+						}
+					}
+					return true
+				})
+			}
+		}
+	}
+	nTypes := 0
+	for tn, sites := range byType {
+		st, _ := tn.Type().Underlying().(*types.Struct)
+		if st == nil {
+			continue
+		}
+		// constructors: functions named New<T>… in the type's package
+		var required map[string]bool
+		for _, s := range sites {
+			if s.fn.Recv != nil || !strings.HasPrefix(s.fn.Name.Name, "New"+tn.Name()) {
+				continue
+			}
+			sets := map[string]bool{}
+			for k := range s.sets {
+				sets[k] = true
+			}
+			for k := range assigned[s.fn][tn] {
+				sets[k] = true
+			}
+			req := map[string]bool{}
+			for i := 0; i < st.NumFields(); i++ {
+				if f := st.Field(i); nilable(f.Type()) && sets[f.Name()] {
+					req[f.Name()] = true
+				}
+			}
+			if required == nil {
+				required = req
+			} else {
+				for k := range required {
+					if !req[k] {
+						delete(required, k) // not every constructor sets it
+					}
+				}
+			}
+		}
+		if len(required) == 0 {
+			continue
+		}
+		nTypes++
+		for _, s := range sites {
+			if s.fn.Recv == nil && strings.HasPrefix(s.fn.Name.Name, "New"+tn.Name()) {
+				continue
+			}
+			var missing []string
+			for k := range required {
+				if !s.sets[k] && !assigned[s.fn][tn][k] {
+					missing = append(missing, k)
+				}
+			}
+			sort.Strings(missing)
+			run.Oblige(len(missing) == 0)
+			if len(missing) > 0 {
+				c.violate(rule, load.RelPkg(s.pk.PkgPath)+"."+s.fn.Name.Name, tn.Name()+" without "+strings.Join(missing, ","), s.lit.Pos(),
+					"a "+tn.Name()+" is built here without "+strings.Join(missing, ", ")+", which every constructor of the type sets: its methods use the field without a nil test, so the object fails (a nil Logger panics in the reader goroutine on the first malformed response) where one from the constructor would not")
+			}
+		}
+	}
+	run.Count("constructed_types_with_defaults", nTypes)
+	run.Floor("constructed_types_with_defaults", 3)
 }
